@@ -533,6 +533,84 @@ def run_r7(ctx, rule):
             rule.ok("%s: once the marked token is consumed, errors are raised at the mark only" % short(nid), f.loc())
     rule.note("marking_token_functions", n)
 
+# ---- R8 -------------------------------------------------------------------------------------------
+def run_r8(ctx, rule):
+    """The AIGER comment section is the one token that spans lines; when it is rejected, the error is located by hand:
+    the cursor is moved behind the last line feed in front of the offending position and the line feeds before that
+    are counted.  With n = number of bytes in front of the offending position and p = index of the last line feed among
+    them, the first `advance` must move by p + 1 and the counted slice must end at p.  Decided by evaluating both
+    expressions to linear forms over n and p, with `iter().rev().position(LF)` = n - 1 - p and
+    `iter().rposition(LF)` = p (the two ways to find that line feed)."""
+    facts = ctx.facts
+    fs = [g for i, g in facts.fns.items() if norm(i) == "flussab_aiger::token::remaining_file_content"]
+    if not fs:
+        rule.bad("remaining_file_content/anchor", "anchor missing: aiger token::remaining_file_content", kind="anchor-missing")
+        return
+    f = fs[0]
+    sy = sym(f)
+    from .c03 import _derivation_calls
+
+    def lin(e, depth=0):
+        """(coef_n, coef_p, const) or None"""
+        if depth > 10:
+            return None
+        k = e[0]
+        if k == "c" and isinstance(e[1], int):
+            return (0, 0, e[1])
+        if k == "cast":
+            return lin(e[2], depth + 1)
+        if k == "l":
+            o = sy.origin(e)
+            return lin(o, depth + 1) if o != e else None
+        if k in ("bin", "ovf") and e[1].replace("Unchecked", "") in ("Add", "Sub", "AddWithOverflow", "SubWithOverflow"):
+            a, b = lin(e[2], depth + 1), lin(e[3], depth + 1)
+            if a is None or b is None:
+                return None
+            sgn = 1 if e[1].startswith("Add") else -1
+            return (a[0] + sgn * b[0], a[1] + sgn * b[1], a[2] + sgn * b[2])
+        if k == "f" and e[2] == "0" and e[1][0] == "v" and e[1][2] == "Some":
+            return lin(e[1][1], depth + 1)
+        if k == "f" and e[2] == "0" and e[1][0] in ("ovf", "bin"):
+            return lin(e[1], depth + 1)
+        if k == "call":
+            m = norm(e[2]).rsplit("::", 1)[-1]
+            if m == "len":
+                return (1, 0, 0)
+            if m in ("position", "rposition") and e[3]:
+                via = _derivation_calls(f, e[3][0])
+                rev = "rev" in via
+                from_back = (m == "rposition") != rev
+                if m == "position" and not rev:
+                    return None  # the first line feed, not the last
+                # searching from the back yields: position-after-rev = n-1-p ; rposition = p ; rposition-after-rev = n-1-p'
+                return (0, 1, 0) if (m == "rposition" and not rev) else (1, -1, -1) if (m == "position" and rev) else None
+        return None
+
+    advs = [(bb, t) for bb, t in f.calls() if norm(util.cname(t)) == DR + "advance"]
+    c = cfg(f)
+    n = 0
+    found = False
+    for bb, t in advs:
+        e = sy.operand(t["args"][1])
+        v = lin(e)
+        if v is None or v[1] == 0:
+            continue
+        found = True
+        n += 1
+        rule.check(v == (0, 1, 1), "remaining_file_content/advance-behind-last-line-feed", "the cursor is moved behind the last line feed in front of the offending byte: by p + 1 (got %d*n + %d*p + %d from %s)" % (v[0], v[1], v[2], sy.show(e)[:50]), f.loc(bb))
+    # the slice whose line feeds are counted ends at p
+    for bb, t in f.calls():
+        cn = norm(util.cname(t))
+        if cn.rsplit("::", 1)[-1] == "index" and len(t["args"]) > 1:
+            r = sy.operand(t["args"][1])
+            if r[0] == "agg" and r[1].endswith("RangeTo") and len(r[3]) == 1:
+                v = lin(r[3][0])
+                if v is not None and v[1] != 0:
+                    n += 1
+                    rule.check(v == (0, 1, 0), "remaining_file_content/counted-lines-end", "the line feeds counted are those in front of the last one: the slice ends at p (got %d*n + %d*p + %d)" % v, f.loc(bb))
+    if not found:
+        rule.bad("remaining_file_content/advance", "no advance by an amount derived from the position of the last line feed found", f.loc(), kind="anchor-missing")
+
 
 def run(ctx):
     r1 = ctx.rule("C08-R1", "mark() is read only after set_mark() for the current token on every path from every API root", floor=8)
@@ -543,6 +621,8 @@ def run(ctx):
     run_r3(ctx, r3)
     r4 = ctx.rule("C08-R4", "errors are raised at the cursor or at the mark only; column = position - line_start + 1", floor=10)
     run_r4(ctx, r4)
+    r8 = ctx.rule("C08-R8", "rejected AIGER comment section: the cursor moves behind the last line feed before the offending byte and the line feeds before it are counted (linear forms over n and p)", floor=2)
+    run_r8(ctx, r8)
     r7 = ctx.rule("C08-R7", "once a token function consumed the token it marked, it raises errors at the mark, not at the cursor", floor=5)
     run_r7(ctx, r7)
     r6 = ctx.rule("C08-R6", "a token that leaves locating its error to the caller commits the error with the cursor still on the token", floor=3)
